@@ -179,6 +179,36 @@ Proof.
   intros c h d n dots Hs Hd. destruct (fronts_single_component c h d n dots Hs) as [H | H]; [exact H | contradiction].
 Qed.
 
+(* create() always asks for O_CREAT|O_EXCL: the host call can neither follow a final-component symlink nor
+   produce the unmodelled outcome *)
+Lemma has_lor_r : forall a b, b <> 0 -> has (N.lor a b) b = true.
+Proof.
+  intros a b Hb. unfold has. apply negb_true_iff. apply N.eqb_neq. intros H. apply Hb.
+  apply N.bits_inj. intros n. rewrite N.bits_0.
+  assert (Hn : N.testbit (N.land (N.lor a b) b) n = false) by (rewrite H; apply N.bits_0).
+  rewrite N.land_spec, N.lor_spec in Hn. destruct (N.testbit b n); [rewrite orb_true_r in Hn; discriminate Hn | reflexivity].
+Qed.
+
+Lemma create_check_not_follow : forall c h d n e, create_check c h d n = Err e -> e <> EFOLLOW.
+Proof.
+  intros c h d n e H. unfold create_check in H.
+  repeat match type of H with
+  | (if ?b then _ else _) = _ => destruct b
+  | (match ?x with _ => _ end) = _ => destruct x
+  end; inversion H; subst; discriminate.
+Qed.
+
+Theorem create_excl_never_follows : forall c h d n flags mode,
+  fst (sys_openat_creat_excl c h d n (N.lor (N.lor flags O_CREAT) O_EXCL) mode) <> Err EFOLLOW.
+Proof.
+  intros c h d n flags mode. unfold sys_openat_creat_excl.
+  rewrite (has_lor_r (N.lor flags O_CREAT) O_EXCL) by discriminate. cbn [negb].
+  destruct (has _ O_DIRECTORY); [cbn; discriminate|].
+  destruct (create_check c h d n) as [dv|e] eqn:Hck.
+  - destruct (create_node c h d dv n (KReg []) (init_mode c dv mode)). cbn. discriminate.
+  - cbn. intros E. inversion E. apply (create_check_not_follow _ _ _ _ _ Hck). assumption.
+Qed.
+
 Lemma has_slash_In : forall n, has_slash n = true <-> In 47 n.
 Proof.
   intros n. unfold has_slash. rewrite existsb_exists. split.
